@@ -506,6 +506,8 @@ def regen_patterns(ck):
 
 
 def spec_verdicts(ck, cases):
+    if not cases:
+        return []
     ans = ck.driver('Input', [case_line(c) for c in cases])
     return [parse_spec_answer(a, c) for a, c in zip(ans, cases)]
 
